@@ -166,9 +166,10 @@ CLAIMED = {
     "C19": dict(
         text="Theorems for every outcome word and protocol version: the feed raises iff its outcome is a failure preceded by ≥ MAX_WATCHDOG_FAILURES consecutive failures (generated constant), success clears the count, "
         "keep-alive is nop on v4 and a counter read otherwise with read-and-clear exactly on multiples of the period. Tie: generated constants + exhaustive outcome words (length ≤ 7 quick / 9 thorough, versions 4 and 8) and long runs "
-        "across the period boundary on the real ControllerApplication._watchdog_feed with a stub EZSP, diffed with the model; oracle evaluated on the implementation's trace.",
+        "across the period boundary on the real ControllerApplication._watchdog_feed with a stub EZSP, diffed with the model; oracle evaluated on the implementation's trace; protocol versions newer than the newest handler; the failing call is the keep-alive or the free-buffer read. "
+        "Source-level: the coroutine _watchdog_feed is translated from the syntax tree on every run (harness/pytrans.py -> BV/Gen/SrcWd.lean; awaited calls on a scripted command layer, the statements touching zigpy's counter objects pinned by their text) and one feed is proved to be one step of the model (BV/Proofs/Src/Wd.lean); c19_src_* restate the raise-iff clause over the generated definition.",
         ref="6 C19",
-        technique="Lean 4 proof (induction over outcome words) + exhaustive differential vs real _watchdog_feed",
+        technique="Lean 4 proof (induction over outcome words; source-level translation of the feed coroutine proved equal to the model step) + exhaustive differential vs real _watchdog_feed",
         note="zigpy.util.Requests is shimmed harness-side to construct the application object. ",
     ),
     "C17": dict(
